@@ -159,3 +159,289 @@ Example C02_atomic_brackets_nonvacuous :
   /\ sections [CAcq CBar; CAcq CMulti; CRel CMulti; CRel CBar] = 1%nat
   /\ sections [CAcq CBar; CRel CBar; CAcq CMulti; CRel CMulti; CAcq CBar; CRel CBar] = 3%nat.
 Proof. exact generated_brackets_nonvacuous. Qed.
+
+(* ================================================================== screen level (model/MultiScreen.v) *)
+(** C02_screen.  Scope, all of it visible in the statement: Top alignment and no I/O faults
+    ([ms_run] runs [step] with [nofaults]; [FitsAll] excludes set_alignment(Bottom)), the
+    MultiProgress draws to a terminal and no bar owns a terminal ([ms_initial]), proviso [FitsAll]
+    (every painted composed frame's Bar rows, plus the kept rows above them when they are not
+    erased, fit the terminal height; suspend closures write non-empty lines; no suspend through a
+    detached bar).  ANY sequence of calls (not only [hist_ok] ones), any number of bars, every
+    limiter state and time stamp (refused draws included), every finish / drop order.
+    [ms_run] executes every emitted TermLike call on the terminal model (Term.v, width W, height H,
+    scroll-back included) while computing the ghost [g] = (log, kept rows, live rows) from the
+    MultiState bookkeeping without looking at the terminal.  After the history the rows ever
+    written are exactly [pre ++ wrap log ++ kept ++ live] (as rows of W cells, then only blank
+    rows), and the cursor is ready at column 0 of the row below them. *)
+From IndModel Require Import MultiScreen.
+From IndProofs Require Import MultiScreenProofs.
+
+Theorem C02_screen : forall (W H : N), 1 <= W -> 1 <= H ->
+  forall (pre : list (list N)) (s0 : sys) (t0 : term) (h : list (N * op)),
+  ms_initial s0 -> ready (N.to_nat W) (N.to_nat H) pre t0 -> FitsAll W H s0 h ->
+  let g := snd (fst (ms_run W H (s0, mghost0, t0) h)) in
+  let t := snd (ms_run W H (s0, mghost0, t0) h) in
+  (exists k, screen (N.to_nat W) t
+             = map (pad (N.to_nat W)) (ms_expected W pre g) ++ repeat (repeat SP (N.to_nat W)) k)
+  /\ next_cell (N.to_nat W) t = (length (ms_expected W pre g), 0%nat).
+Proof. exact c02_screen. Qed.
+Print Assumptions C02_screen.
+
+(** ... after EVERY call of the history (the hypotheses are closed under prefixes) *)
+Theorem C02_screen_every_op : forall (W H : N) (pre : list (list N)) (s0 : sys) (t0 : term)
+    (h1 h2 : list (N * op)), 1 <= W -> 1 <= H ->
+  ms_initial s0 -> ready (N.to_nat W) (N.to_nat H) pre t0 -> FitsAll W H s0 (h1 ++ h2) ->
+  let g := snd (fst (ms_run W H (s0, mghost0, t0) h1)) in
+  let t := snd (ms_run W H (s0, mghost0, t0) h1) in
+  (exists k, screen (N.to_nat W) t
+             = map (pad (N.to_nat W)) (ms_expected W pre g) ++ repeat (repeat SP (N.to_nat W)) k)
+  /\ next_cell (N.to_nat W) t = (length (ms_expected W pre g), 0%nat).
+Proof. exact c02_screen_every_prefix. Qed.
+Print Assumptions C02_screen_every_op.
+
+(** what the live rows are after finish* / abandon* / finish_and_clear / force-draw of a member
+    and after MultiProgress::remove (all forced draws), in every state with the invariants of
+    C02_order_reachable and no pending orphan line: exactly the stored lines of the members that
+    are in the ordering, in ordering order ([Clean]; each member once by NoDup ordering) - the
+    removed bar's slot is not in the ordering any more, a cleared bar stores no line: their rows
+    are gone, the other members' rows are repainted unchanged directly below the kept rows *)
+Theorem C02_live_forced : forall (W H : N) (s : sys) (now : N) (o : op) (g : mghost),
+  MInv s -> op_ok s o = true -> J (s_mp s) -> forced_member_op s o = true ->
+  Clean W (s_mp (step_sys W H nofaults s now o))
+        (g_run W H now (s_mp s) (s_calls s) (op_actions W s now o) g).
+Proof. exact c02_live_forced. Qed.
+Print Assumptions C02_live_forced.
+
+(* ------------------------------------------------------------------ non-vacuity (screen level) *)
+Definition exm_bar (c : N) : bar := new_bar (Some 10) FAndLeave [PLit [c]; PPos] THidden 0.
+Definition exm_s0 : sys :=
+  mksys [exm_bar 65; exm_bar 66; exm_bar 67] (new_ms (TTerm (new_ttarget (Some 20) 0))) 0.
+(** 3 bars A B C on a 6 x 10 terminal: println "hi", A finishes and is dropped at the head (its row
+    becomes a kept row), B ticks, B.println "x\ny" (erases the kept row by design), C.suspend
+    writing "w", clear, C ticks *)
+Definition exm_ops : list (N * op) :=
+  [(0, OInsert BEnd 0); (0, OInsert BEnd 1); (0, OInsert BEnd 2);
+   (1000000, OTick 0); (1000001, OTick 1); (100000000, OInc 2 3);
+   (200000000, OMPrintln [104;105]);
+   (300000000, OFinish 0 FAndLeave); (400000000, ODrop 0);
+   (500000000, OTick 1);
+   (600000000, OPrintln 1 [120;10;121]);
+   (700000000, OSuspend 2 [[119]]);
+   (800000000, OMClear); (900000000, OTick 2)].
+
+Example C02_screen_hypotheses_satisfiable :
+  ms_initial exm_s0 /\ ready 6 10 [] term_init /\ FitsAll 6 10 exm_s0 exm_ops
+  /\ hist_ok 6 10 nofaults exm_s0 exm_ops.
+Proof.
+  split.
+  - split.
+    + intros b. unfold get_bar, nthN. destruct (N.to_nat b) as [|[|[|[|n]]]]; exact I.
+    + eexists. repeat split. intros i ls Hi. unfold nthN in Hi. cbn in Hi.
+      destruct (N.to_nat i); discriminate Hi.
+  - split; [exact (ready_start 6 10 [] 0 0 ltac:(lia))|].
+    split; vm_compute; repeat (split || intro).
+Qed.
+
+(** after the drop of A (9 calls): A's final row is a kept row; at the end: the log, then B and C *)
+Example C02_screen_example_kept :
+  let st := ms_run 6 10 (exm_s0, mghost0, term_init) (firstn 9 exm_ops) in
+  snd (fst st) = mkmg [[104;105]] [[65;49;48]] [[66;48]; [67;51]]
+  /\ screen 6 (snd st) = map (pad 6) [[104;105]; [65;49;48]; [66;48]; [67;51]].
+Proof. vm_compute. repeat split. Qed.
+
+Example C02_screen_example_end :
+  let st := ms_run 6 10 (exm_s0, mghost0, term_init) exm_ops in
+  snd (fst st) = mkmg [[104;105]; [120]; [121]; [119]] [] [[66;48]; [67;51]]
+  /\ screen 6 (snd st) = map (pad 6) [[104;105]; [120]; [121]; [119]; [66;48]; [67;51]]
+  /\ next_cell 6 (snd st) = (6%nat, 0%nat).
+Proof. vm_compute. repeat split. Qed.
+
+(** the hypotheses of C02_live_forced hold in the state before the finish of A, and its conclusion computed *)
+Example C02_live_forced_example :
+  let s := fst (fst (ms_run 6 10 (exm_s0, mghost0, term_init) (firstn 7 exm_ops))) in
+  op_ok s (OFinish 0 FAndLeave) = true /\ forced_member_op s (OFinish 0 FAndLeave) = true
+  /\ ms_orphans (s_mp s) = []
+  /\ bar_lines_of (s_mp (step_sys 6 10 nofaults s 300000000 (OFinish 0 FAndLeave)))
+     = [mkline KBar [65;49;48]; mkline KBar [66;48]; mkline KBar [67;51]].
+Proof. vm_compute. repeat split. Qed.
+
+(** ------------------------------------------------------------------------------------------
+    The per-member "latest drawn state" invariant (model/MultiLatest.v, proofs/MultiLatestProofs.v).
+    Ghost (never looks at a limiter): per slot the bar that stored there last, the number of that
+    call in the history, the bar record at that call and a flag "no silent change since"; per bar
+    the number of its most recent draw step.  [lrun] threads it along a history, [op_draw] says
+    which calls are a draw step (enumerated from Sys.step), [silent_change] which calls change a
+    bar's logic state without one (set_style; inc/dec/set_position refused by the bar's own
+    position limiter).  Hypotheses of all theorems: an initially empty MultiProgress whose target is
+    a terminal (any refresh limiter: refused draws are covered), any bars, any valid history, any
+    terminal size, any fault oracle. *)
+From IndModel Require Import MultiLatest.
+From IndProofs Require Import MultiLatestProofs.
+
+(** (1) in every reachable state, for every slot [i] of the ordering: the stored lines are
+    [frame_of] of the ghost state of the slot ([shown]; nothing if the bar has not drawn since it
+    was added), and that ghost state belongs to the bar sitting in the slot, was recorded at that
+    bar's MOST RECENT draw step ([lg_last]), is a state the bar really had (its logic state right
+    after call number [le_step]), and - when in sync - is the bar's CURRENT logic state.  A live
+    member's slot is in the ordering and its ghost entry (if any) names that bar. *)
+Theorem C02_member_lines_latest : forall (W H : N) (fails : N -> bool) (s0 : sys) (h : list (N * op)),
+  init_ok s0 -> mp_visible s0 -> hist_ok W H fails s0 h ->
+  let r := lrun W H fails s0 0 lg_empty h in
+  let s := fst (fst r) in let g := snd r in
+  s = run W H fails s0 h
+  /\ (forall i, In i (ms_order (s_mp s)) ->
+        member_lines (ms_members (s_mp s)) i = shown g i
+        /\ forall e, lg_slot g i = Some e ->
+             b_target (get_bar s (le_bar e)) = TMulti i
+             /\ lg_last g (le_bar e) = Some (le_step e) /\ (le_step e < length h)%nat
+             /\ logic (le_state e) = logic (get_bar (run W H fails s0 (firstn (S (le_step e)) h)) (le_bar e))
+             /\ (le_sync e = true -> logic (le_state e) = logic (get_bar s (le_bar e))))
+  /\ (forall b i, alive s b = true -> b_target (get_bar s b) = TMulti i ->
+        In i (ms_order (s_mp s)) /\ forall e, lg_slot g i = Some e -> le_bar e = b).
+Proof. exact member_lines_latest. Qed.
+Print Assumptions C02_member_lines_latest.
+
+(** (1) after ANY call that is a draw step of a member ([op_draw] = every call on a bar except
+    set_style, reset_eta, reset_elapsed, suspend, a position update refused by the bar's position
+    limiter, drop of a finished bar, add/insert*/remove) - painted or refused by the refresh limiter -
+    the stored lines of that bar are [frame_of] its CURRENT state (if its slot is still there: a
+    dropped bar at the head of the list is reaped at once) *)
+Theorem C02_draw_step_current : forall (W H : N) (fails : N -> bool) (s0 : sys) (h : list (N * op))
+    (now : N) (o : op) (b : N) (st : bar) (i : N),
+  init_ok s0 -> mp_visible s0 -> hist_ok W H fails s0 (h ++ [(now, o)]) ->
+  let s := run W H fails s0 h in let s' := step_sys W H fails s now o in
+  op_draw s now o = Some (b, st) -> b_target (get_bar s b) = TMulti i -> In i (ms_order (s_mp s')) ->
+  member_lines (ms_members (s_mp s')) i = frame_of (get_bar s' b) /\ logic (get_bar s' b) = logic st.
+Proof. exact draw_step_current. Qed.
+Print Assumptions C02_draw_step_current.
+
+(** (1) the enumeration is complete: a possible call changes the logic state (position, length,
+    tick, status, message, prefix, template) of bar [x] only if it is a draw step of [x] or one of
+    the silent changes of [x] *)
+Theorem C02_logic_change : forall (W H : N) (fails : N -> bool) (s : sys) (now : N) (o : op) (x : N),
+  op_ok s o = true ->
+  logic (get_bar (step_sys W H fails s now o) x) <> logic (get_bar s x) ->
+  (exists st, op_draw s now o = Some (x, st)) \/ silent_change s now o x = true.
+Proof. exact logic_change. Qed.
+Print Assumptions C02_logic_change.
+
+(** (2) every MultiState::draw of every call of every valid history ([step_draws]: the draws of
+    the call with the MultiState they are made on; C02_frame: an attempted one paints exactly
+    [ms_frame]) composes  text ++ concat (for each slot of the ordering: [frame_of] the owning
+    bar's state at its most recent draw step):  a state the bar really had (after call [le_step]) *)
+Theorem C02_frame_shows_latest : forall (W H : N) (fails : N -> bool) (s0 : sys) (h1 h2 : list (N * op))
+    (now : N) (o : op),
+  init_ok s0 -> mp_visible s0 -> hist_ok W H fails s0 (h1 ++ (now, o) :: h2) ->
+  let r := lrun W H fails s0 0 lg_empty h1 in
+  let s := fst (fst r) in
+  let g' := lat_step s now o (length h1) (snd r) in
+  s = run W H fails s0 h1 /\
+  forall m f ex, In (m, f, ex) (step_draws W H fails s now o) ->
+    ms_frame m ex = (match ex with Some e => e | None => [] end ++ ms_orphans m)
+                    ++ concat (map (shown g') (ms_order m))
+    /\ forall i e, In i (ms_order m) -> lg_slot g' i = Some e ->
+         b_target (get_bar s (le_bar e)) = TMulti i
+         /\ lg_last g' (le_bar e) = Some (le_step e) /\ (le_step e <= length h1)%nat
+         /\ logic (le_state e)
+            = logic (get_bar (run W H fails s0 (firstn (S (le_step e)) (h1 ++ (now, o) :: h2))) (le_bar e)).
+Proof. exact frame_shows_latest. Qed.
+Print Assumptions C02_frame_shows_latest.
+
+(** (2) never older: the call number of a bar's most recent draw step - the state every frame
+    shows for it - only moves forward along a history (the drawn states of a bar are a subsequence
+    of its state history, in order) *)
+Theorem C02_latest_monotone : forall (W H : N) (fails : N -> bool) (s0 : sys) (h1 h2 : list (N * op))
+    (b : N) (k1 : nat),
+  init_ok s0 -> mp_visible s0 -> hist_ok W H fails s0 (h1 ++ h2) ->
+  lg_last (snd (lrun W H fails s0 0 lg_empty h1)) b = Some k1 ->
+  exists k2, lg_last (snd (lrun W H fails s0 0 lg_empty (h1 ++ h2))) b = Some k2 /\ (k1 <= k2)%nat.
+Proof. exact latest_monotone. Qed.
+Print Assumptions C02_latest_monotone.
+
+(** (3) orphan lines: between calls orphan_lines is empty; the text lines of a member's println
+    ([member_texts]) are the orphan lines of exactly one MultiState::draw - the one of that very
+    call, which is attempted (pending orphan lines force the draw) - and of no other draw; in every
+    composed frame all text (println lines of the MultiProgress, then of the member) precedes all
+    Bar lines *)
+Theorem C02_orphans_once : forall (W H : N) (fails : N -> bool) (s0 : sys) (h1 h2 : list (N * op))
+    (now : N) (o : op),
+  init_ok s0 -> mp_visible s0 -> ms_orphans (s_mp s0) = [] -> hist_ok W H fails s0 (h1 ++ (now, o) :: h2) ->
+  let s := run W H fails s0 h1 in
+  ms_orphans (s_mp s) = [] /\ ms_orphans (s_mp (step_sys W H fails s now o)) = []
+  /\ (forall m f ex, In (m, f, ex) (step_draws W H fails s now o) ->
+        ms_orphans m = member_texts s o
+        /\ exists B, ms_frame m ex = (match ex with Some e => e | None => [] end ++ member_texts s o) ++ B
+                     /\ all_text (match ex with Some e => e | None => [] end ++ member_texts s o) /\ all_bar B)
+  /\ (member_texts s o <> [] ->
+        exists m f, step_draws W H fails s now o = [(m, f, None)] /\ ms_attempt W m f None now = true).
+Proof. exact orphans_once. Qed.
+Print Assumptions C02_orphans_once.
+
+(* ------------------------------------------------------------------ non-vacuity (latest drawn state) *)
+Definition ml_bar (c : N) : bar :=
+  new_bar (Some 100) FAndLeave [PLit [c; 58]; PPos; PLit [47]; PLen; PLit [32]; PMsg] THidden 0.
+(** bars A and B, a MultiProgress on a 1 Hz terminal target *)
+Definition ml_s0 : sys := mksys [ml_bar 65; ml_bar 66] (new_ms (TTerm (new_ttarget (Some 1) 0))) 0.
+(** add A, add B; 20 ticks of A drain the refresh limiter; then A: set_length(200),
+    set_position(50), set_message("two") - all three refused by the limiter *)
+Definition ml_h1 : list (N * op) :=
+  [(0, OInsert BEnd 0); (0, OInsert BEnd 1)]
+  ++ map (fun k => (k, OTick 0)) [1;2;3;4;5;6;7;8;9;10;11;12;13;14;15;16;17;18;19;20]
+  ++ [(100, OSetLen 0 200); (101, OSetPos 0 50); (102, OSetMsg 0 [116;119;111])].
+(** one second later B.set_message("go") is painted *)
+Definition ml_o : N * op := (1000000100, OSetMsg 1 [103;111]).
+Definition ml_nf : N -> bool := fun _ => false.
+
+Example C02_latest_hypotheses_satisfiable :
+  init_ok ml_s0 /\ mp_visible ml_s0 /\ ms_orphans (s_mp ml_s0) = []
+  /\ hist_ok 40 20 ml_nf ml_s0 (ml_h1 ++ [ml_o; (1000000101, OPrintln 0 [104;105])]).
+Proof.
+  split; [|split; [|split]].
+  - repeat split. intros b. unfold is_member, get_bar, nthN. destruct (N.to_nat b) as [|[|[|n]]]; reflexivity.
+  - eexists. reflexivity.
+  - reflexivity.
+  - vm_compute. repeat split.
+Qed.
+
+(** the three updates of A are refused (no TermLike call), yet the frame triggered by B shows
+    "A:50/200 two": A's state at its most recent draw step (call number 24), in sync *)
+Example C02_latest_example :
+  let s := run 40 20 ml_nf ml_s0 ml_h1 in
+  map (fun k => step_out 40 20 ml_nf (run 40 20 ml_nf ml_s0 (firstn k ml_h1))
+                         (fst (nth k ml_h1 (0, OMClear))) (snd (nth k ml_h1 (0, OMClear)))) [22; 23; 24]%nat
+    = [[]; []; []]
+  /\ map (fun '(m, f, ex) => (ms_attempt 40 m f ex (fst ml_o), map lt (ms_frame m ex)))
+         (step_draws 40 20 ml_nf s (fst ml_o) (snd ml_o))
+     = [(true, [[65;58;53;48;47;50;48;48;32;116;119;111]; [66;58;48;47;49;48;48;32;103;111]])]
+  /\ let r := lrun 40 20 ml_nf ml_s0 0 lg_empty ml_h1 in
+     let g' := lat_step (fst (fst r)) (fst ml_o) (snd ml_o) (length ml_h1) (snd r) in
+     map (fun i => option_map (fun e => (le_bar e, le_step e, le_sync e)) (lg_slot g' i)) [0; 1]
+       = [Some (0, 24%nat, true); Some (1, 25%nat, true)]
+     /\ lg_last g' 0 = Some 24%nat.
+Proof. vm_compute. repeat split. Qed.
+
+(** a member println: its line is the orphan part of the one, attempted, draw of that call *)
+Example C02_orphans_example :
+  let s := run 40 20 ml_nf ml_s0 (ml_h1 ++ [ml_o]) in
+  let o := OPrintln 0 [104;105] in
+  member_texts s o = [mkline KText [104;105]]
+  /\ map (fun '(m, f, ex) => (ms_attempt 40 m f ex 1000000101, ms_orphans m, map lt (ms_frame m ex)))
+         (step_draws 40 20 ml_nf s 1000000101 o)
+     = [(true, [mkline KText [104;105]],
+         [[104;105]; [65;58;53;48;47;50;48;48;32;116;119;111]; [66;58;48;47;49;48;48;32;103;111]])]
+  /\ ms_orphans (s_mp (step_sys 40 20 ml_nf s 1000000101 o)) = [].
+Proof. vm_compute. repeat split. Qed.
+
+(** the silent list is not empty: 11 inc(1) of A within 1 ms - the 11th is refused by A's position
+    limiter, A's position is 11 but its stored line (and the frame B triggers) says 10; the ghost
+    entry of A is out of sync.  Same behaviour of the real code: docs/C05.md, finding candidate. *)
+Example C02_silent_change_example :
+  let h := [(0, OInsert BEnd 0); (0, OInsert BEnd 1)] ++ map (fun _ => (5, OInc 0 1)) (seq 0 11) in
+  let s := run 40 20 ml_nf ml_s0 h in
+  hist_ok 40 20 ml_nf ml_s0 (h ++ [(6, OTick 1)])
+  /\ silent_change (run 40 20 ml_nf ml_s0 (firstn 12 h)) 5 (OInc 0 1) 0 = true
+  /\ b_pos (get_bar s 0) = 11
+  /\ map (fun '(m, f, ex) => (ms_attempt 40 m f ex 6, map lt (ms_frame m ex))) (step_draws 40 20 ml_nf s 6 (OTick 1))
+     = [(true, [[65;58;49;48;47;49;48;48;32]; [66;58;48;47;49;48;48;32]])]
+  /\ option_map le_sync (lg_slot (snd (lrun 40 20 ml_nf ml_s0 0 lg_empty h)) 0) = Some false.
+Proof. vm_compute. repeat split. Qed.
